@@ -116,6 +116,7 @@ class FelicaStandard(tt3.Type3Tag):
             # and reads all block data if there is one service that
             # does not require a key. First we figure out the common
             # service type and which access modes are available.
+            service_type, access_types = "Unknown", "unknown"
             if services[0] >> 2 & 0b1111 == 0b0010:
                 service_type = "Random"
                 access_types = " & ".join([(
@@ -320,6 +321,9 @@ class FelicaStandard(tt3.Type3Tag):
         timeout = max(302E-6 * (a + 1) * 4**e, 0.002)
         data = pack("<H", service_index)
         data = self.send_cmd_recv_rsp(0x0A, data, timeout, check_status=False)
+        if len(data) not in (2, 4):
+            log.debug("insufficient data received from tag")
+            raise tt3.Type3TagCommandError(tt3.DATA_SIZE_ERROR)
         if data != b"\xFF\xFF":
             unpack_format = "<H" if len(data) == 2 else "<HH"
             return unpack(unpack_format, data)
@@ -343,7 +347,7 @@ class FelicaStandard(tt3.Type3Tag):
         a, e = self.pmm[3] & 7, self.pmm[3] >> 6
         timeout = max(302E-6 * (a + 1) * 4**e, 0.002)
         data = self.send_cmd_recv_rsp(0x0C, b'', timeout, check_status=False)
-        if len(data) != 1 + data[0] * 2:
+        if len(data) < 1 or len(data) != 1 + data[0] * 2:
             log.debug("insufficient data received from tag")
             raise tt3.Type3TagCommandError(tt3.DATA_SIZE_ERROR)
         return [unpack(">H", data[i:i+2])[0] for i in range(1, len(data), 2)]
